@@ -226,6 +226,24 @@ let strlib_case id fname (fields : string list) =
     | _ -> ("bad-case", "bad-case")) in
   Printf.printf "strlib %s %s\ngospec %s %s\n" id l id g
 
+(* ---- C05: the model's Batch script under the cmd.exe model, next to the reference semantics ---- *)
+let cmd_fuel = nat_of_int 200000
+let batrun_case id main files stddir =
+  match FrontModel.parse_main (env_of files stddir) (bytes_of_hex main) with
+  | FrontModel.POk (body, _, _, _) ->
+      let spec = (match Src.run run_fuel [] [] body with
+          | Src.Ran (out, status, _) -> Printf.sprintf "spec=ran specout=%s specstatus=%s" (hex_of_bytes out) (z_to_string status)
+          | Src.RunUndef -> "spec=undefined"
+          | Src.RunNoFuel -> "spec=nofuel") in
+      (match BatchConv.emit_batch body with
+       | Transpile.TOk (script, _) ->
+           (match CmdModel.cmd_run cmd_fuel script with
+            | CmdModel.CmdRan (out, status) -> Printf.printf "batrun %s cmd=ran out=%s status=%s %s\n" id (hex_of_bytes out) (z_to_string status) spec
+            | CmdModel.CmdFuel -> Printf.printf "batrun %s cmd=fuel %s\n" id spec
+            | CmdModel.CmdUnsupported -> Printf.printf "batrun %s cmd=unsupported %s\n" id spec)
+       | _ -> Printf.printf "batrun %s cmd=noscript %s\n" id spec)
+  | _ -> Printf.printf "batrun %s cmd=noparse\n" id
+
 (* ---- C10: the reference semantics of a program and of its renaming ---- *)
 let ren_case id main filesa stddir filesb =
   let run files = (match FrontModel.parse_main (env_of files stddir) (bytes_of_hex main) with
@@ -323,6 +341,7 @@ let () =
       | ["emit"; id; main; files; stddir] -> emit_case id main files stddir
       | ["run"; id; main; files; stddir] -> run_case id main files stddir
       | "strlib" :: id :: fname :: fields -> strlib_case id fname fields
+      | ["batrun"; id; main; files; stddir] -> batrun_case id main files stddir
       | ["ren"; id; main; filesa; stddir; filesb] -> ren_case id main filesa stddir filesb
       | ["dq"; id; env; word] -> dq_case id env word
       | "fsh" :: id :: _ :: _ :: _ :: _ :: prefiles :: ops :: _ -> fsh_case id prefiles ops
